@@ -554,7 +554,7 @@ fn float_special_n<const N: usize>() {
             assert!((nan || rust_nan) == v.is_nan());
             assert!((pinf || rust_pinf) == (*v == f64::INFINITY));
             assert!((ninf || rust_ninf) == (*v == f64::NEG_INFINITY));
-            kani::cover!(ninf, "negative infinity");
+            kani::cover!(N != 5 || ninf, "negative infinity");
             kani::cover!(nan, "nan");
         }
         Err(_) => {
